@@ -129,6 +129,11 @@ CLAIMS = {
    "Oracle: elastic record <=> GET / delivered a complete object; docker record <=> /info 2xx with a complete object and negotiation not hung; host, port, scheme, info/indexes/version equal what was served; secondary failures never suppress; no record => error; elapsed <= timeouts + 3 s. Commands: --proto/--timeout wiring. "
    "One known finding (docker, null body) is excluded by construction and re-confirmed on every run.",
    "loopback stands for the network; redirects/1xx/204/304 not generated; encoding/json defines 'object'", "C10"),
+ "C17": _c("E3-netns",
+   "property-based testing: generated network namespaces (veth pairs, tun device, addresses, default routes) x generated invocations of the real sx binary; frames captured on every interface; oracle = validity predicate of the selection rule",
+   "Exploration. The real sx binary on real AF_PACKET sockets inside fresh network namespaces built from generated configurations (1..3 veth pairs + optional MAC-less tun device, 0..3 IPv4 networks per interface incl. overlapping ones and IPv6-only interfaces, 0..3 default routes with metrics incl. ties, via gateway or device routes) and generated invocations (arp/icmp/tcp/udp, target attached or not, any subset of --iface/--srcip/--srcmac). "
+   "Every frame leaving any interface is captured; a reference model of the selection rule decides the admissible (interface, source address, source MAC, framing) combinations, or that the scan must fail with an error and send nothing.",
+   "veth and tun only (no dummy/vlan/tunnel devices in this kernel, no policy routing); configuration judged as the kernel reports it; exit 2 if unshare is refused", "C17"),
 }
 
 # properties not (yet) claimed
